@@ -4,6 +4,11 @@
 
 mod capture;
 mod e1;
+mod e2;
+mod gen;
+mod implrun;
+mod prog;
+mod refsolve;
 mod refbuiltins;
 mod refunify;
 mod report;
@@ -20,6 +25,7 @@ fn nshards() -> usize {
 fn engine_of(prop: &str) -> &'static str {
     match prop {
         "C06" | "C07" | "C08" | "C09" | "C13" => "e1",
+        "C01" | "C02" | "C03" | "C04" | "C05" | "C10" | "C11" => "e2",
         _ => "none",
     }
 }
@@ -57,12 +63,14 @@ fn real_main(args: Vec<String>) -> i32 {
     if std::env::var("VH_WORKER").is_ok() {
         match engine_of(&prop) {
             "e1" => e1::worker(&tier),
+            "e2" => e2::worker(&prop, &tier),
             _ => {}
         }
         return 0;
     }
     match engine_of(&prop) {
         "e1" => run_e1(&prop, &tier),
+        "e2" => run_e2(&prop, &tier),
         _ => {
             eprintln!("unknown property {}", prop);
             2
@@ -83,6 +91,7 @@ fn replay(path: &str) -> i32 {
     println!("replaying {} class {}", v["property"], v["class"]);
     let ok = match w["engine"].as_str() {
         Some("e1") => e1::replay(w),
+        Some("e2") => e2::replay(w),
         _ => {
             eprintln!("no replayer for this witness");
             return 2;
@@ -119,6 +128,35 @@ fn run_e1(prop: &str, tier: &str) -> i32 {
             "small-scope hypothesis: terms of depth <= 2, three named variables, lists of <= 3 elements".into(),
             "reference unifier (harness/src/refunify.rs) is the oracle; pairs needing an occurs check are counted and not judged".into(),
             "a `$_` nested inside a binding makes success order-dependent in principle; pairs on which the strict and wildcard readings disagree are counted as grey-zone and judged only by the weak clauses".into(),
+        ],
+    };
+    report::finish(verdict, &out)
+}
+
+fn run_e2(prop: &str, tier: &str) -> i32 {
+    let args = vec![prop.to_string(), "--tier".into(), tier.to_string()];
+    let cap = if tier == "thorough" { 3 * 3600 } else { 900 };
+    let out = supervise::run_sharded(&args, nshards(), Duration::from_secs(20), Duration::from_secs(cap), &[]);
+    let calls = *out.stats.get("next_solution_calls").unwrap_or(&0);
+    let hist = *out.stats.get("histories").unwrap_or(&0);
+    let coverage = json!({
+        "states": hist + calls,
+        "transitions": calls,
+        "traces_validated_against_impl": hist,
+        "samples": report::samples(&out, 5),
+        "exhaustive": !out.capped,
+        "distinct_outcome_classes": out.distinct.get("outcomes"),
+        "rule": "state = (program, query, number of answers consumed): distinct by construction; transition = one next_solution call on the real engine, judged against the reference interpreter's step (answer up to renaming of unbound variables, text written); histories run to exhaustion plus 3 re-asks",
+        "bounds": {"tier": tier, "families": "see harness/src/gen.rs: core (1-2 clauses, and/or trees <= 3 leaves), lists (all clause and goal orders), builtins, cut (<= 4 leaves, 1-3 clauses, caller/sibling wrappers), not, output", "step_budget": e2::BUDGET, "max_answers": e2::MAX_ANSWERS, "reasks": e2::REASKS},
+    });
+    let verdict = report::Verdict {
+        property: prop.to_string(),
+        level: "model_checking".into(),
+        coverage,
+        assumptions: vec![
+            "small-scope hypothesis: programs of the enumerated shapes only".into(),
+            "reference interpreter (harness/src/refsolve.rs) is the oracle; it is first checked against the repository's own documented answers".into(),
+            "programs whose reference search exceeds the step budget, needs an occurs check or reaches behaviour the statements are silent on are counted under skipped.* and not judged".into(),
         ],
     };
     report::finish(verdict, &out)
